@@ -19,6 +19,7 @@
 -/
 import RotoV.Lemmas.Tarjan
 import RotoV.Lemmas.TarjanCtx
+import RotoV.Lemmas.TarjanNoPanic
 
 namespace RotoV.C14
 open RotoV.Tarjan
@@ -26,7 +27,8 @@ open RotoV.Tarjan
 /-! ## T1 — the order is topological and complete -/
 
 /- FULL STATEMENT (proved only in checked-certificate form and on the bounded
-   instance below; what is missing is the invariant proof of Tarjan's
+   instance below; totality — no panic, fuel suffices — is proved in general
+   (`tarjan_total`); what is missing is the invariant proof of Tarjan's
    algorithm — stack/lowlink discipline — for arbitrary graphs):
 
    theorem order_topological (g : Graph) (comps : List (List Nat))
@@ -46,6 +48,27 @@ theorem topo_reach_back (g : Graph) (comps : List (List Nat)) (h : TopoOrder g c
     (pre : List (List Nat)) (c : List Nat) (post : List (List Nat)) (hc : comps = pre ++ c :: post)
     (x y : Nat) (hx : x ∈ c) (r : Reach g x y) : y ∈ pre.flatten ∨ y ∈ c :=
   h.reach_back pre c post hc (Or.inr hx) r
+
+/-- `tarjan` as written is total on every graph: none of its `unwrap`s /
+`state.vertices[w]` index operations can panic, and the recursion depth never
+exceeds the node count (the model's fuel). -/
+theorem tarjan_total (g : Graph) : ∃ comps, tarjan g = .ok comps :=
+  RotoV.Tarjan.tarjan_total' g
+
+/-- hence `find_compilation_order` always returns an order or one of its two errors -/
+theorem find_compilation_order_total (g : Graph) : ∃ o, findCompilationOrder g = .ok o := by
+  obtain ⟨comps, ht⟩ := RotoV.Tarjan.tarjan_total' g
+  obtain ⟨r, hr⟩ := contextCheck_total g
+  unfold findCompilationOrder
+  cases selfEdge g g.edges with
+  | some c => exact ⟨_, rfl⟩
+  | none =>
+    simp only [ht, bind, Except.bind]
+    cases mixedComponent g comps with
+    | some c => exact ⟨_, rfl⟩
+    | none =>
+      simp only [hr]
+      cases r <;> exact ⟨_, rfl⟩
 
 /-- all 512 graphs on three names: bit `3*i+j` of `m` is the edge `i → j` -/
 def smallGraph (m : Fin 512) : Graph :=
